@@ -6,6 +6,10 @@ CONSTANTS
   RuneKinds = {"p"}
   DecMode = "buffered"
   LineMode = "tracked"
+  WithComments = FALSE
+  CommentMode = "eofsafe"
+  Pres = {"ok", "nocmap"}
+  SpawnMode = "afterchecks"
 SPECIFICATION Spec
 INVARIANT TypeOK
 INVARIANT SinkGood
